@@ -199,6 +199,12 @@ func c04(env *core.Env, kind string, faulty bool) {
 		r.fired = true
 		r.calls = 0
 		kinds := []simnet.FaultKind{simnet.DropRequest, simnet.DropResponse, simnet.Duplicate, simnet.DuplicateSecond, simnet.TruncateRequest}
+		if req.Method == "PUT" {
+			// (only where the client can tell: a duplicate of the previous answer, a 202 or
+			// 204, read in place of the closing PUT's own; a stale 202 for a PATCH is
+			// indistinguishable from the real one)
+			kinds = append(kinds, simnet.StaleResponse)
+		}
 		f := simnet.Fault{Kind: kinds[c.Int("faultkind", len(kinds))]}
 		if f.Kind == simnet.TruncateRequest {
 			n := int(req.ContentLength)
@@ -315,6 +321,27 @@ func c04(env *core.Env, kind string, faulty bool) {
 			failedHere("Write", err)
 			if got := r.w.Size(); got != pos {
 				env.Failf("C04/Size/counts-failed-write", "Write of [%d,%d) failed (%v) but the writer now reports Size()=%d; %d bytes had been written successfully", pos, end, err, got, pos)
+			}
+			if !r.direct && !r.badWriter && !r.memberFault && c.Bool("retry-same-writer", 1, 2) {
+				// the caller tries the same Write again on the same writer: it either goes
+				// through (the first attempt never reached the registry) or fails again
+				// (it did, and the writer's offset is stale); nothing may be sent twice
+				r.fired = false
+				r.calls++
+				n2, err2 := r.w.Write(chunk)
+				env.Op(fmt.Sprintf("write-retry:%v", err2 == nil))
+				env.Logf("retry write [%d,%d) on the same writer -> %d %v", pos, end, n2, err2)
+				env.Probe("c04:write-retried-on-same-writer")
+				if err2 == nil {
+					if n2 != len(chunk) {
+						env.Failf("C04/Write/short", "retried Write of %d bytes returned %d without error", len(chunk), n2)
+					}
+					pos = end
+					if got := r.w.Size(); got != pos {
+						env.Failf("C04/Size/wrong", "writer Size()=%d after a retried write up to offset %d", got, pos)
+					}
+					continue
+				}
 			}
 			pos = r.recoverSession("write failed")
 			continue
